@@ -231,9 +231,16 @@ def random_layout(rng, depth=3, maxfiles=10, comps=COMPS, odd=0.15, links=True):
                 t2 = 'MISC' if tag != 'MISC' else 'DATA'
                 L.add_file_entry(mp2, p, data, t2, hs)
             elif kind == 'hash':
+                # conflict on exactly one shared hash; the other entry may list further hashes
                 same = [x for x in palette(rng) if len(x) == len(data) and x != data]
                 if same and hs:
-                    L.add_file_entry(mp2, p, same[0], tag, hs)
+                    hs2 = sorted(set(hs) | set(rng.choice(HASHSETS)))
+                    e2 = L.add_file_entry(mp2, p, data, tag, hs2)
+                    bad = rng.choice(sorted(hs))
+                    e2['ck'][bad] = fm.digest(bad, same[0])
+                    if rng.random() < 0.5:      # order of the two entries
+                        L.mf[mp2].remove(e2)
+                        L.mf[mp2].insert(0, e2)
             else:
                 L.add_file_entry(mp2, p, other, tag, hs)
     # Manifests seen through directory links are strays unless listed: list them as DATA
@@ -255,7 +262,8 @@ def random_layout(rng, depth=3, maxfiles=10, comps=COMPS, odd=0.15, links=True):
     if rng.random() < 0.3:
         L.mf['Manifest'].append({'tag': 'TIMESTAMP', 'path': '', 'size': 0, 'ck': {}, 'ts': '2017-07-14T02:40:00Z'})
     for mp in L.mf:
-        rng.shuffle(L.mf[mp])
+        if rng.random() < 0.7:
+            rng.shuffle(L.mf[mp])
     return L
 
 
